@@ -222,6 +222,7 @@ Proof. vm_compute. repeat split; reflexivity. Qed.
 Definition ops_history : list hevent :=
   [HOps 1 [OListAppend N_check 777; OAddVariable 207 109 [1; 2; 3]; OSetAttr N_lags 4];
    HOps 2 (solve_ops 1 [(201, 7)] 2 123 4 (Some (TMNames, 501, 503, 505)));
+   HCopySeries 1 2 201 201;     (* original.Y = copy.Y : the VALUES of another object's array *)
    HEv (EInit 0 (args list_span));
    HOps 0 [OListAppend C_NAMES 209]].
 
